@@ -61,7 +61,13 @@ class FakeD:
         return self._emit(length)
 
 
-def run(total, cut_with_tail, corrupt, zlib_header):
+class BigBytes(bytes):
+    """compressed input whose LENGTH is a harness variable (content: the two header octets that decide raw vs zlib framing)"""
+    def __len__(self):
+        return self.n
+
+
+def run(total, cut_with_tail, corrupt, zlib_header, n_in=None):
     made = []
 
     def factory(*a, **k):
@@ -71,6 +77,9 @@ def run(total, cut_with_tail, corrupt, zlib_header):
         return d
 
     data = (Z.GZIP_HEAD if zlib_header else b"") + b"\x01\x02"
+    if n_in is not None:
+        data = BigBytes(data)
+        data.n = n_in
     with mock.patch.object(zlib, "decompressobj", factory):
         try:
             v = Z.DeflateZipModel().decompress(data)
@@ -82,13 +91,14 @@ def run(total, cut_with_tail, corrupt, zlib_header):
     return out, made
 
 
-def bounded(total: int, cut_with_tail: bool, zlib_header: bool) -> bool:
+def bounded(total: int, cut_with_tail: bool, zlib_header: bool, n_in: int) -> bool:
     """
-    pre: total >= 0
+    pre: total >= 0 and n_in >= 4
     post: _
     """
+    # n_in: length of the compressed input (incompressible data is LONGER compressed than plain: stored blocks add 5 octets per 64 KiB)
     rt.tick()
-    out, made = run(total, cut_with_tail, False, zlib_header)
+    out, made = run(total, cut_with_tail, False, zlib_header, n_in)
     if len(made) != 1:
         return False
     d = made[0]
@@ -145,7 +155,8 @@ def replay(func, call):
     """Real zlib, real DeflateZipModel: plaintext of `total` octets (clamped to a few MiB above the limit), constant data when the
     counterexample has no unconsumed tail (highly compressible: output pending inside the object), pseudo-random otherwise."""
     import tracemalloc
-    total, cut_with_tail, zlib_header = eval("(" + call + ",)")
+    args = eval("(" + call + ",)")
+    total, cut_with_tail, zlib_header = args[:3]
     z = Z.DeflateZipModel()
     if func == "corrupt_stream":
         blob = (Z.GZIP_HEAD if zlib_header else b"") + b"\xff\xff\xff\xff"
@@ -174,18 +185,33 @@ def replay(func, call):
         results.append("plaintext %d octets (%s) -> %s" % (n, "constant" if compressible else "pseudo-random", res))
         if bad:
             return {"violated": True, "key": "c17-bound-%s" % ("cut" if n > LIMIT else "roundtrip"), "detail": "; ".join(results)}
-    # memory bound: a 64 MiB bomb must not be inflated
-    bomb = z.compress(b"\0" * (64 << 20))
-    tracemalloc.start()
-    try:
-        z.decompress(bomb)
-        res = "returned"
-    except ExceededSizeError:
-        res = "ExceededSizeError"
-    except Exception as e:  # noqa
-        res = type(e).__name__
-    peak = tracemalloc.get_traced_memory()[1]
-    tracemalloc.stop()
-    if res != "ExceededSizeError" or peak > 4 * LIMIT:
-        return {"violated": True, "key": "c17-memory", "detail": "64 MiB bomb: %s, peak traced allocation %d octets" % (res, peak)}
+    # incompressible plaintexts at and just below the limit (their DEFLATE stream is longer than the plaintext), both framings
+    for n2 in (LIMIT, LIMIT - 1, LIMIT - 40, LIMIT - 79):
+        pt = _data(n2, False)
+        for hdr in (False, True):
+            comp = zlib.compress(pt) if hdr else z.compress(pt)
+            try:
+                ok = z.decompress(comp) == pt
+                res = "round trip %s" % ok
+            except Exception as e:  # noqa
+                ok, res = False, "raised %s" % type(e).__name__
+            if not ok:
+                return {"violated": True, "key": "c17-bound-roundtrip", "detail": "incompressible plaintext of %d octets (<= limit), %s stream of %d octets -> %s"
+                        % (n2, "zlib-framed" if hdr else "raw", len(comp), res)}
+    # memory bound: a 64 MiB bomb must not be inflated, with raw and with zlib framing
+    peak = 0
+    for hdr in (False, True):
+        bomb = zlib.compress(b"\0" * (64 << 20)) if hdr else z.compress(b"\0" * (64 << 20))
+        tracemalloc.start()
+        try:
+            z.decompress(bomb)
+            res = "returned"
+        except ExceededSizeError:
+            res = "ExceededSizeError"
+        except Exception as e:  # noqa
+            res = type(e).__name__
+        peak = tracemalloc.get_traced_memory()[1]
+        tracemalloc.stop()
+        if res != "ExceededSizeError" or peak > 4 * LIMIT:
+            return {"violated": True, "key": "c17-memory", "detail": "64 MiB bomb (%s framing): %s, peak traced allocation %d octets" % ("zlib" if hdr else "raw", res, peak)}
     return {"violated": False, "detail": "; ".join(results) + "; bomb peak %d" % peak}
